@@ -100,6 +100,15 @@ def ttlLatitude (e : Event) : Bool :=
   | .insertRange _ .update => true
   | _ => false
 
+/-- range forms of those calls: the *counts* can coincide although different elements succeeded (one twin
+still holds an expired entry for one key, the other for another), so the latitude has also been used when the
+counts agree and the contents differ -/
+def rangeLatitude (e : Event) : Bool :=
+  match e.op with
+  | .eraseRange _ => true
+  | .insertRange _ .update => true
+  | _ => false
+
 def isSizeOp (e : Event) : Bool :=
   match e.op with
   | .size | .empty => true
@@ -107,8 +116,8 @@ def isSizeOp (e : Event) : Bool :=
 
 /-- C19: instance 1 = instance 0 with no-effect calls (tag `@x`) spliced in.
 TTL containers: `size()`/`empty()` are not compared; when an erase or update-only insert returns
-differently on the two sides the property's latitude has been used and the states may legitimately
-differ from there on, so the comparison ends; a `clean_expired_values()` count that differs while
+differently on the two sides (or, for the range forms, returns the same count but leaves different contents)
+the property's latitude has been used and the states may legitimately differ from there on, so the comparison ends; a `clean_expired_values()` count that differs while
 everything else agrees has signature `c19-clean-count` (known finding). -/
 def c19Loop (kind : Kind) : Nat → Nat → List String → List Event → List Event → Verdict
   | _, n, kf, [], _ => .ok n kf
@@ -123,7 +132,7 @@ def c19Loop (kind : Kind) : Nat → Nat → List String → List Event → List 
       else if !isTtl kind then
         if e0.out == e1.out && sameObs e0.obs e1.obs then c19Loop kind fuel (n + 1) kf r0 r1
         else .fail n s!"shared call differs: plain [{showEv e0}] spliced [{showEv e1}]"
-      else if ttlLatitude e0 && e0.out != e1.out then .ok n kf
+      else if ttlLatitude e0 && (e0.out != e1.out || (rangeLatitude e0 && e0.obs.sweep != e1.obs.sweep)) then .ok n kf
       else
         let rest := e0.obs.cap == e1.obs.cap && e0.obs.sweep == e1.obs.sweep
         if rest && (e0.out == e1.out || isSizeOp e0) then c19Loop kind fuel (n + 1) kf r0 r1
